@@ -299,6 +299,7 @@ INDEPENDENT = {
     "layouts": set(ALL_PIDS) - {"C07", "C09"},
     "u2fprog": set(ALL_PIDS) - {"C08", "C10"},
     "strhelpers": {"C07", "C08", "C09", "C10", "C11", "C17", "C18", "C19"},
+    "arbtree": set(ALL_PIDS) - {"C19"},
 }
 
 
@@ -1877,7 +1878,7 @@ PROPS = {
             "assumptions": ["dependencies behave as modelled (DESIGN.md App. A): their own panics / aborts / stack use are "
                             "only observed by the correspondence, on an 8 MiB main-thread stack, 64-bit host",
                             "Miri (undefined behaviour in executions that do not crash) is run in the thorough tier only"]},
-    "C19": {"ns": "C19", "cases": cases_c19, "miri": True, "uses": ["generator_fine", "arbStr_fine", "validUpToF_valid"],
+    "C19": {"ns": "C19", "cases": cases_c19, "miri": True, "uses": ["generator_fine", "arbStr_fine", "validUpToF_valid", "runG_fine", "arbEnum_lt"],
             "level_text": "Proof (partial). Model (Ctap/Arb.lean) of the four length-handling helpers of src/arbitrary.rs "
                           "(arbitrary_str / _bytes / _vec / _byte_array) over a model of the arbitrary-1.4.2 primitives they "
                           "call (bytes, peek_bytes, fill_buffer integers, bool, int_in_range, choose, derive on field-less "
@@ -1890,10 +1891,15 @@ PROPS = {
                           "the five hand-written impls built only from these helpers (rp entity, user entity, filtered "
                           "parameters, attestation-format preference, hmac-secret input; draw lists extracted from the "
                           "source, obligation Gen.arbImpls = Spec.arbImpls) return NotEnoughData or a value whose every text "
-                          "is well-formed and every bounded member within capacity. NOT modelled: derive(Arbitrary) on the "
-                          "request structs / enums, the arbitrary crate's own &str / &[u8] impls, the remaining hand-written "
-                          "impls that only compose those, the pointer cast in arbitrary_byte_array (layout): the three "
-                          "whole-request generators are covered by the correspondence run alone (harness built with "
+                          "is well-formed and every bounded member within capacity. G-ARBTREE (Ctap/ArbTree.lean, "
+                          "whole_requests_fine): the generator call trees of ctap2::Request, ctap1::Request and "
+                          "authenticator::Request — every derive(Arbitrary) (fields in order; enums: u32 selector, alternative, "
+                          "unreachable!()) and every statement of every hand-written impl — are read off the source on every run; "
+                          "for any tree with u32-sized capacities and non-empty enums, and every input, no unwrap() / "
+                          "unreachable!() / unsafe precondition of ctap-types is reachable, GIVEN that the leaf generators of "
+                          "the arbitrary crate (integers, bool, &[u8], &str, foreign derives) do not panic. NOT modelled: those "
+                          "leaves, the values of whole requests, the pointer cast in arbitrary_byte_array (layout): the three "
+                          "whole-request generators are additionally exercised by the correspondence run (harness built with "
                           "--features arbitrary, debug assertions, catch_unwind: every text validated, Debug-formatted, "
                           "cloned and compared, dispatched through a mock authenticator; thorough: a sample under Miri).",
             "rule": "input families of the property (all-zero, all-0xFF, single-byte-repeated, random, and length-word + "
